@@ -62,6 +62,20 @@ def shipped_specs(rng, deep, o):
     return specs
 
 
+def split_raised(o, cases):
+    """a chain query that raises anything but the documented not-found error is a violation by itself (and has no
+    observation of the shape the judge reads)"""
+    keep = []
+    for c in cases:
+        marks = [e["bf"] for e in c["res"]["entries"] if isinstance(e.get("bf"), str) and e["bf"].startswith(("?raised", "?tables-raised"))]
+        if marks:
+            o.violate("C09:chain-query-answers-or-raises-the-documented-not-found-error", {"m": c["m"], "S": c["S"], "src": c.get("asrc")},
+                      {"raised": marks[0], "text": c.get("text") or c.get("file")})
+        else:
+            keep.append(c)
+    return keep
+
+
 def run(tier, seed, replay_path=None):
     ensure_repo_on_path()
     o = Outcome(PROP, tier, seed)
@@ -92,12 +106,12 @@ def run(tier, seed, replay_path=None):
                 for S in (subsets if deep else rng.sample(subsets, 3)):
                     qs.append((m, S))
             args.append((PROP, i, f["src"], seed * 7919 + i, qs))
-        cases = flatten(pmap(decquery.build_generated, args))
+        cases = split_raised(o, flatten(pmap(decquery.build_generated, args)))
         rej = decfam.judge(cases, wd, o, "judge chains of TLC-generated table sets (DecTrace/DecQuery)")
         record(o, cases, rej)
         # C -> S on the shipped files
         specs = shipped_specs(rng, deep, o)
-        cases2 = pmap(decquery.build_shipped, specs, chunk=8)
+        cases2 = split_raised(o, pmap(decquery.build_shipped, specs, chunk=8))
         rej2 = decfam.judge(cases2, wd, o, "judge chains of the shipped .dec files (DecTrace/DecQuery)")
         record(o, cases2, rej2)
         o.notes["generated_cases"] = len(cases)
